@@ -447,6 +447,17 @@ fn build_day_offset(pair: Pair<Rule>) -> Result<i64> {
     let sign = build_plus_or_minus(pairs.next().expect("empty day offset"));
     let val_abs = build_positive_number(pairs.next().expect("missing value"))?;
 
+    // An offset of more days than the whole supported range (years 1900 to 9999) can never
+    // be applied to a date, and date arithmetic would overflow on the largest values.
+    const MAX_DAYS_OFFSET: u64 = 366 * 8100;
+
+    if val_abs > MAX_DAYS_OFFSET {
+        return Err(Error::Overflow {
+            value: format!("{}", val_abs),
+            expected: format!("at most {MAX_DAYS_OFFSET} days"),
+        });
+    }
+
     let val_abs: i64 = val_abs.try_into().map_err(|_| Error::Overflow {
         value: format!("{}", val_abs),
         expected: "an integer in [-2**63, 2**63[".to_string(),
